@@ -54,6 +54,24 @@ pub enum Constraint {
         field: TastIdent,
         result_ty: tast::Ty,
     },
+    /// The operand type of a builtin operator must be one the operator is defined for.
+    OperandDomain {
+        op: OperandClass,
+        ty: tast::Ty,
+    },
+}
+
+/// Which types a builtin operator accepts (both operands have the same type).
+#[derive(Debug, Clone, Copy, PartialEq, Eq, serde::Serialize, serde::Deserialize)]
+pub enum OperandClass {
+    /// `+`: integers, floats, strings
+    Additive,
+    /// `-`, `*`, `/` and unary `-`: integers, floats
+    Arithmetic,
+    /// `<`, `>`, `<=`, `>=`: integers, floats, strings
+    Ordered,
+    /// `==`, `!=`: everything but functions and vectors
+    Equality,
 }
 
 /// Origin of a function definition.
